@@ -5,6 +5,7 @@ import (
 	"encoding/binary"
 	"fmt"
 	"sort"
+	"strings"
 
 	"github.com/polynetwork/poly/common"
 	scom "github.com/polynetwork/poly/core/store/common"
@@ -53,7 +54,7 @@ func reqKeyOf(s *Sim, op string, a0 int64) string {
 		return chain.PubHex(s.Peer(a0))
 	case "approvechain", "approveupd", "approvequit", "regchain", "updchain", "quitchain":
 		return fmt.Sprint(ChainID(a0))
-	case "approverelayer", "approvermrelayer":
+	case "approverelayer", "approvermrelayer", "approvesv", "approvermsv":
 		return fmt.Sprint(uint64(abs(a0) % 4))
 	}
 	return ""
@@ -63,6 +64,7 @@ var approveEvents = map[string]string{
 	"approvecand": "approveCandidate", "blacknode": "blackNode", "whitenode": "whiteNode",
 	"approvechain": "ApproveRegisterSideChain", "approveupd": "ApproveUpdateSideChain", "approvequit": "ApproveQuitSideChain",
 	"approverelayer": "ApproveRegisterRelayer", "approvermrelayer": "ApproveRemoveRelayer",
+	"approvesv": "ApproveRegisterStateValidator", "approvermsv": "ApproveRemoveStateValidator",
 }
 
 func activeCount(pm *node_manager.PeerPoolMap) int {
@@ -88,8 +90,14 @@ func (s *Sim) pending(t *TxTrace) bool {
 		if pm == nil {
 			return false
 		}
-		it, ok := pm.PeerPoolMap[chain.PubHex(s.Peer(st.Arg(0)))]
-		return ok && it.Status != node_manager.BlackStatus && activeCount(pm) > 4
+		list := s.BlackList(st)
+		for _, k := range list {
+			it, ok := pm.PeerPoolMap[k]
+			if !ok || it.Status == node_manager.BlackStatus {
+				return false
+			}
+		}
+		return activeCount(pm) > 4+len(list)-1
 	case "whitenode":
 		return pre.BlackListed(chain.PubHex(s.Peer(st.Arg(0))))
 	case "approvechain":
@@ -102,6 +110,10 @@ func (s *Sim) pending(t *TxTrace) bool {
 		return pre.RelayerApplyRaw(uint64(abs(st.Arg(0))%4)) != nil
 	case "approvermrelayer":
 		return pre.RelayerRemoveRaw(uint64(abs(st.Arg(0))%4)) != nil
+	case "approvesv":
+		return pre.SVApplyRaw(uint64(abs(st.Arg(0))%4)) != nil
+	case "approvermsv":
+		return pre.SVRemoveRaw(uint64(abs(st.Arg(0))%4)) != nil
 	}
 	return false
 }
@@ -189,8 +201,15 @@ func (s *Sim) OnTx(m *Model, t *TxTrace) {
 	}
 	signer, okS := s.signerOf(st)
 	switch st.Op {
-	case "approvecand", "blacknode", "whitenode", "approvechain", "approveupd", "approvequit", "approverelayer", "approvermrelayer":
+	case "approvecand", "blacknode", "whitenode", "approvechain", "approveupd", "approvequit", "approverelayer", "approvermrelayer", "approvesv", "approvermsv":
 		s.onApproval(m, t, signer)
+	case "regsv", "rmsv":
+		if !witnessed(t, signer) && (t.OK || !noWrites(t)) {
+			s.R.Fail("C18", "owner-op-without-witness", "%v succeeded without the named owner's witness", st)
+		}
+		if t.OK {
+			s.R.Probe("state_validator_request_made")
+		}
 	case "regcand", "regchain", "updchain", "quitchain", "regrelayer", "rmrelayer", "unregcand", "quitnode":
 		s.onRequest(m, t, signer, okS)
 	case "regasset":
@@ -229,6 +248,9 @@ func (s *Sim) onApproval(m *Model, t *TxTrace, approver common.Address) {
 	r := s.R
 	st := t.P.Step
 	key := st.Op + "|" + reqKeyOf(s, st.Op, st.Arg(0))
+	if st.Op == "blacknode" {
+		key = st.Op + "|" + strings.Join(s.BlackList(st), ",") // the request is the whole key list
+	}
 	fired := t.OK && t.HasEvent(approveEvents[st.Op])
 	valid := witnessed(t, approver) && s.pending(t)
 	if !valid {
